@@ -717,6 +717,18 @@ func (e *Eval) compile(node ast.Node) error {
 		//
 		patches := []int{}
 
+		// The value we switch upon is compiled once per case; if
+		// there are only default-blocks - or no blocks at all - it
+		// would never be compiled, and an invalid expression there
+		// would go unnoticed.  Compile it once, to validate it, and
+		// throw the result away.
+		saved := len(e.instructions)
+		err := e.compile(node.Value)
+		e.instructions = e.instructions[:saved]
+		if err != nil {
+			return err
+		}
+
 		// We have to assemble each choice
 		for _, opt := range node.Choices {
 
